@@ -38,6 +38,20 @@ def _writes(sx, effects, out, loop_ctx=()):
     return out
 
 
+def _no_exception(cond):
+    """a path condition with its "nothing in the enclosing try has raised so far" conjuncts removed: every statement of a try body
+    carries them, they say nothing about whether the statement is meant to run"""
+    def is_exc(c):
+        return c[0] == "not" and c[1][0] == "raised"
+    if is_exc(cond):
+        return TRUE
+    if cond[0] == "and":
+        rest = tuple(c for c in cond[1] if not is_exc(c))
+        if len(rest) != len(cond[1]):
+            return simp(("and", rest)) if rest else TRUE
+    return cond
+
+
 def r1b_writes_unconditional(ctx, chk, rule="C11.1"):
     """write_robots writes the three games on every call: a condition on the writes that looks at the file system (or at an
     `overwrite`-style switch) means that the file of that name can hold the games of another board, or nothing."""
@@ -48,6 +62,7 @@ def r1b_writes_unconditional(ctx, chk, rule="C11.1"):
     seen_brace = False
     n_pre_cond = 0
     for loops, cond, t in ws:
+        cond = _no_exception(cond)
         if not seen_brace and is_const(t) and isinstance(t[1], str) and t[1].lstrip().startswith("{"):
             seen_brace = True
         if not seen_brace:
@@ -64,7 +79,7 @@ def r1b_writes_unconditional(ctx, chk, rule="C11.1"):
             len(ws), " (%d optional comment pieces in the preamble)" % n_pre_cond if n_pre_cond else ""))
         return
     for c in conds:
-        fs = [t for t in C02._sub(c) if (t[0] == "call" and (t[1] == "open" or t[1].startswith("os.path.") or t[1].startswith("os."))) or t[0] == "raised"
+        fs = [t for t in C02._sub(c) if (t[0] == "call" and (t[1] == "open" or t[1].startswith("os.path.") or t[1].startswith("os.")))
               or (t[0] == "mcall" and t[2] in ("exists", "is_file", "isfile", "stat"))]
         switches = [t for t in C02._sub(c) if t[0] == "v" and t[1] in f.params and t[1] not in f.params[:9]]
         if fs or switches:
@@ -97,7 +112,17 @@ def r1_template(ctx, chk, rule="C11.1"):
         fo = next(iter(recvs))
         opened = fo[0] == "call" and fo[1] == "open" and fo[2] and fo[2][0] == fname_t
         mode = (fo[2][1] if len(fo[2]) > 1 else dict(fo[3]).get("mode", C("r"))) if fo[0] == "call" and fo[1] == "open" else None
-        if opened and mode in (C("w"), C("wt")):
+        renamed = None
+        if not opened and fo[0] == "call" and fo[1] == "open" and fo[2] and fo[2][0][0] in ("strcat", "fstr") and any(x == fname_t for x in C02._sub(fo[2][0])):
+            # written next to the target under a temporary name and moved over it when complete (os.replace / os.rename / shutil.move)
+            tmp = fo[2][0]
+            moves = [e for e in sx.final.effects if e[1] == "call" and e[2][0] == "call" and e[2][1] in ("os.replace", "os.rename", "shutil.move")
+                     and len(e[2][2]) == 2 and e[2][2][0] == tmp and e[2][2][1] == fname_t]
+            if moves and _no_exception(moves[0][0]) == TRUE:
+                renamed = e_text = "%s(%s, %s)" % (moves[0][2][1], show(tmp), f.params[0])
+        if renamed and mode in (C("w"), C("wt")):
+            chk.ok(rule, f.where(), "every write goes to a temporary file next to the target, which is moved over %s when complete: %s" % (f.params[0], renamed))
+        elif opened and mode in (C("w"), C("wt")):
             chk.ok(rule, f.where(), "every write goes to open(%s, 'w'): the file named by the caller, truncated first" % f.params[0])
         elif fo[0] == "call" and fo[1] == "open":
             chk.violation(rule, f.where(), "the games are written to `%s`: not the file named by the caller opened for writing (mode 'w')" % show(fo)[:100],
@@ -117,6 +142,7 @@ def r1_template(ctx, chk, rule="C11.1"):
     pre_cond = {}           # index in pre -> condition of an optional piece
     seen_brace = False
     for loops, cond, t in ws:
+        cond = _no_exception(cond)
         if not seen_brace and is_const(t) and isinstance(t[1], str) and t[1].lstrip().startswith("{"):
             seen_brace = True
         if cond != TRUE:
